@@ -176,6 +176,7 @@ def run(ctx) -> None:
     check_copy_after(ctx)
     check_private(ctx)
     check_helpers(ctx)
+    check_restore_in_finally(ctx)
     ctx.rule("C13.fresh", "T6: reads of solver results are dominated by a solve made in the same call (repeatability)", floor=15)
     check_fresh(ctx)
 
@@ -294,6 +295,37 @@ def check_fresh(ctx) -> None:
                 ctx.ok("C13.fresh", f, enclosing_stmt(r), f"`{norm(r)}`: every call of {f.short} follows a solve in its caller")
             else:
                 ctx.bad("C13.fresh", f, enclosing_stmt(r), f"`{norm(r)}` can be read before any solve of this call: it then holds whatever an earlier optimisation (under other bounds, another objective, a rolled-back context) left in the solver, so the same call on the same model gives different results", path=describe_path(w))
+
+
+def check_restore_in_finally(ctx) -> None:
+    """A temporary change that is put back by hand both in an `except <SomeError>` handler and after the try block is a
+    `finally` written for one exception type only: any other exception (a KeyboardInterrupt, a warning turned into an
+    error, a solver exception of another class) leaves the temporary state in the model."""
+    prog = ctx.prog
+    n = 0
+    for fn in prog.all_funcs():
+        if not fn.qualname.startswith(("cobra.core.model", "cobra.flux_analysis.", "cobra.medium.", "cobra.sampling.", "cobra.summary.", "cobra.util.solver")):
+            continue
+        for t in walk_local(fn.node):
+            if not isinstance(t, ast.Try):
+                continue
+            n += 1
+            blk = None
+            p_ = getattr(t, "_parent", None)
+            for field in ("body", "orelse", "finalbody"):
+                b = getattr(p_, field, None)
+                if isinstance(b, list) and t in b:
+                    blk = b
+            after = blk[blk.index(t) + 1:] if blk else []
+            after_assigns = {norm(s_) for s_ in after[:3] if isinstance(s_, ast.Assign)}
+            for h in t.handlers:
+                names = [] if h.type is None else [norm(x).split(".")[-1] for x in (h.type.elts if isinstance(h.type, ast.Tuple) else [h.type])]
+                if h.type is None or "BaseException" in names or "Exception" in names:
+                    continue
+                same = [s_ for s_ in h.body if isinstance(s_, ast.Assign) and norm(s_) in after_assigns and any(isinstance(x, ast.Raise) for x in h.body)]
+                if same:
+                    ctx.bad("C13.scope", fn, same[0], f"`{norm(same[0])}` restores the model in `except {', '.join(names)}` and again after the try block, but for no other exception: use `finally` - an exception of another type leaves the temporary state (objective direction, bounds ...) in the caller's model")
+    ctx.ok("C13.scope", None, "try statements", f"{n} try statements in model/analysis code: no restore that is limited to particular exception types", nontrivial=False)
 
 
 def visible_roots(ctx, fn: FuncInfo, e: Eff) -> Set[tuple]:
